@@ -1,3 +1,7 @@
 From Hannibal Require Import Model.Sys.
 From Hannibal Require Chk.C14 Props.C14.
 Check Props.C14.C14_truth : forall tr, accepts tr = true -> Chk.C14.chk_C14 tr = true.
+Check Props.C14.C14_answer_after_termination_is_for_ever :
+  forall tr s1 s2 a x c h k isrunning b s3,
+  actors s1 a = Some x -> a_notif x <> NArmed -> run s1 tr = Acc s2 ->
+  handles s2 h = Some (a, k) -> step s2 (EvQuery c h isrunning b) = Acc s3 -> b = negb isrunning.
